@@ -19,6 +19,7 @@
 #include "vm.h"
 #include "vm_ffi.h"
 #include "../nanoisa/nvm_format.h"
+#include "../nanoisa/verifier.h"
 
 #include <stdio.h>
 #include <stdlib.h>
@@ -206,6 +207,20 @@ static void *client_thread(void *arg) {
         if (!module) {
             vmd_msg_send_error(fd, "Invalid .nvm format");
             break;
+        }
+
+        /* Verify bytecode safety before execution, exactly as standalone nano_vm does:
+         * a module from a client is untrusted input */
+        {
+            NvmVerifyResult vr = nvm_verify(module);
+            if (!vr.ok) {
+                char vmsg[NVM_VERIFY_ERROR_SIZE + 64];
+                snprintf(vmsg, sizeof(vmsg), "Error: Bytecode verification failed: %s", vr.error_msg);
+                vmd_msg_send_error(fd, vmsg);
+                vmd_msg_send_exit(fd, 1);
+                nvm_module_free(module);
+                break;
+            }
         }
 
         if (verbose) {
